@@ -115,7 +115,7 @@ pub fn c10_check(c: &TfCase, info: &mut CaseInfo) -> Result<(), Fail> {
 }
 
 pub fn run_c09(ctx: &mut Ctx) {
-    let n = ctx.count(60_000, 3_000_000);
+    let n = ctx.count(500_000, 5_000_000);
     ctx.run("encrypt", n, tf_strategy(), c09_check);
     ctx.required_classes.push("constructed with new()".into());
     for b in [256, 512, 1024] {
@@ -124,6 +124,6 @@ pub fn run_c09(ctx: &mut Ctx) {
 }
 
 pub fn run_c10(ctx: &mut Ctx) {
-    let n = ctx.count(40_000, 2_000_000);
+    let n = ctx.count(300_000, 3_000_000);
     ctx.run("roundtrip", n, tf_strategy(), c10_check);
 }
